@@ -206,6 +206,17 @@ fn main() {
             (0..calls).map(|_| (members[picks[i]])(&mut r)).collect()
         })
         .collect();
+    // guard against an interpreter that perturbs floating-point results (Miri does unless
+    // -Zmiri-deterministic-floats is given): the sequential reference must reproduce itself
+    for i in 0..t {
+        let mut r = Words(seeds[i]);
+        for k in 0..calls {
+            if (members[picks[i]])(&mut r) != expect[i][k] {
+                println!("THREADS-HARNESS scenario={scenario}: the sequential reference is not reproducible (non-deterministic floating point in the interpreter?)");
+                std::process::exit(3);
+            }
+        }
+    }
     // the interleaving
     let handles: Vec<_> = (0..t)
         .map(|i| {
